@@ -9,11 +9,51 @@ typedef struct S_class_ikos__q_number Q;
 static inline i128 zv_raw(struct S_struct___mpz_struct *m){ return (i128)(((u128)m->f1 << 64) | (u128)m->f0); }
 i128 __CPROVER_uninterpreted_qceil(i128, i128);
 i128 __CPROVER_uninterpreted_qfloor(i128, i128);
+#ifdef QM_PRECISE
+/* precise mode (bounded checks only): small numerators / denominators, machine division */
+i128 QM_floor(i128 n, i128 d){
+  __CPROVER_assert(d > 0 && d < 64 && n > -4096 && n < 4096, "q model (precise mode): operands are small");
+  int32_t nn = (int32_t)n, dd = (int32_t)d; int32_t q = nn / dd; if (nn % dd != 0 && nn < 0) q--; return q; }
+i128 QM_ceil(i128 n, i128 d){
+  __CPROVER_assert(d > 0 && d < 64 && n > -4096 && n < 4096, "q model (precise mode): operands are small");
+  int32_t nn = (int32_t)n, dd = (int32_t)d; int32_t q = nn / dd; if (nn % dd != 0 && nn > 0) q++; return q; }
+#else
 i128 QM_ceil(i128 n, i128 d){ if (d == 1) return n; return __CPROVER_uninterpreted_qceil(n, d); }
 i128 QM_floor(i128 n, i128 d){ if (d == 1) return n; return __CPROVER_uninterpreted_qfloor(n, d); }
+#endif
 void _ZN4ikos8q_numberC1ERKS0_(Q *a, Q *b){ *a = *b; }
 void _ZN4ikos8q_numberC2ERKS0_(Q *a, Q *b){ *a = *b; }
 void _ZN4ikos8q_numberD1Ev(Q *a){}
 void _ZN4ikos8q_numberD2Ev(Q *a){}
 void _ZNK4ikos8q_number14round_to_upperEv(Z *r, Q *q){ ZSET(r, QM_ceil(zv_raw(QNUM(q)), zv_raw(QDEN(q)))); }
 void _ZNK4ikos8q_number14round_to_lowerEv(Z *r, Q *q){ ZSET(r, QM_floor(zv_raw(QNUM(q)), zv_raw(QDEN(q)))); }
+
+/* q_number(z): the integer over 1; moves are copies (the moved-from operand is left unchanged) */
+static inline void zset_raw(struct S_struct___mpz_struct *m, i128 v){ m->f0 = (uint64_t)(u128)v; m->f1 = (uint64_t)((u128)v >> 64); }
+void _ZN4ikos8q_numberC1ERKNS_8z_numberE(Q *a, Z *z){ zset_raw(QNUM(a), ZV(z)); zset_raw(QDEN(a), 1); }
+void _ZN4ikos8q_numberC2ERKNS_8z_numberE(Q *a, Z *z){ _ZN4ikos8q_numberC1ERKNS_8z_numberE(a, z); }
+void _ZN4ikos8q_numberC1EOS0_(Q *a, Q *b){ *a = *b; }
+void _ZN4ikos8q_numberC2EOS0_(Q *a, Q *b){ *a = *b; }
+Q *_ZN4ikos8q_numberaSEOS0_(Q *a, Q *b){ *a = *b; return a; }
+Q *_ZN4ikos8q_numberaSERKS0_(Q *a, Q *b){ *a = *b; return a; }
+/* q_number(double): integral values only (the call sites in reach pass the literals 0, 1, -1: placeholder values and
+ * the numbers stored in infinite bounds) */
+void _ZN4ikos8q_numberC1Ed(Q *a, double d){ int64_t i = (int64_t)d; __CPROVER_assert((double)i == d && i >= -1 && i <= 1, "q model: q_number(double) is modelled for 0, 1, -1 only"); zset_raw(QNUM(a), i); zset_raw(QDEN(a), 1); }
+void _ZN4ikos8q_numberC2Ed(Q *a, double d){ _ZN4ikos8q_numberC1Ed(a, d); }
+/* comparisons: exact by cross multiplication (denominators are positive); in precise mode the operands are small and
+ * 64-bit products are exact, otherwise both operands must be integers (denominator 1) */
+static inline int q_cmp(Q *a, Q *b){
+  i128 an = zv_raw(QNUM(a)), ad = zv_raw(QDEN(a)), bn = zv_raw(QNUM(b)), bd = zv_raw(QDEN(b));
+#ifdef QM_PRECISE
+  __CPROVER_assert(ad > 0 && ad < 64 && bd > 0 && bd < 64 && an > -4096 && an < 4096 && bn > -4096 && bn < 4096, "q model (precise mode): operands are small");
+  int64_t l = (int64_t)an * (int64_t)bd, r = (int64_t)bn * (int64_t)ad;
+#else
+  __CPROVER_assert(ad == 1 && bd == 1, "q model: comparison of non-integers needs precise mode");
+  i128 l = an, r = bn;
+#endif
+  return l < r ? -1 : (l > r ? 1 : 0); }
+unsigned char _ZNK4ikos8q_numbergtES0_(Q *a, Q *b){ return q_cmp(a, b) > 0; }
+unsigned char _ZNK4ikos8q_numberltES0_(Q *a, Q *b){ return q_cmp(a, b) < 0; }
+unsigned char _ZNK4ikos8q_numbergeES0_(Q *a, Q *b){ return q_cmp(a, b) >= 0; }
+unsigned char _ZNK4ikos8q_numberleES0_(Q *a, Q *b){ return q_cmp(a, b) <= 0; }
+unsigned char _ZNK4ikos8q_numbereqES0_(Q *a, Q *b){ return q_cmp(a, b) == 0; }
